@@ -28,8 +28,7 @@ def run(chk, replay=None):
         elif e["e"] == "RefStep":
             chk.nontrivial(("s", e["chain"], e["k"], e["dim"]))
     chk.cov["evaluations"] = len(rows)
-    for name in ACTIONS:
-        chk.sample(next(r for r in rows if r["e"] == name))
+    chk.sample_each(rows, ACTIONS)
     ok, matched, res = chk.validate("Trace_C07", trace, need_actions=ACTIONS)
     if not ok:
         bad = rows[matched] if matched < len(rows) else None
